@@ -125,6 +125,10 @@ Notation "'let?' x := o 'in' f" := (obind o (fun x => f)) (at level 200, x patte
    (an argument of the fixpoints rather than a section variable, so that cbn refolds the mutual calls) *)
 Definition tyenv := string -> option (N * flist).
 
+(* a type environment given by an association table *)
+Fixpoint tassoc (k : string) (l : list (string * (N * flist))) : option (N * flist) :=
+  match l with [] => None | (k', v) :: r => if String.eqb k k' then Some v else tassoc k r end.
+
   Fixpoint enc_value (T : tyenv) (s : sch) (tag : N) (v : val) {struct v} : option bytes :=
     match s with
     | SPrim k => enc_prim tag k v
